@@ -19,6 +19,7 @@ CONSTANTS
   PubRest <- NoRest
   MutBatchPersistFirst = FALSE
   MutDropLogEarly = FALSE
+  MutTearIsClosed = FALSE
   MutBatchNoWait = FALSE
   MutPersistOutsideLock = FALSE
 INVARIANTS NoPanic OneUnsettled OneSenderPerPair NoSpuriousRedelivery OnlyOwnTopic BlockingReturn AfterClose NoStuckCall Complete
